@@ -21,7 +21,7 @@ check('C20', 'effect analysis over the resolved call graph of the instantiated p
 
 check('C05', 'call-graph reachability (no allocation request reachable from any FixedCapacityVector member) + guard/encoding shape rules for SmallVector',
       'FixedCapacityVector clause decided in full (NOALLOC on the complete call graph of every instantiation). SmallVector/SmallSet: structural clauses only, see evidence.',
-      'Does not decide capacity()==N as a run-time relation; see DESIGN.md C05.',
+      'Also: ENC-SIB / SHRINK-INLINE (the three encoders agree; shrink_to_fit returns to the inline storage exactly when size <= N, element types with throwing moves included). Does not decide capacity()==N as a run-time relation; see DESIGN.md C05.',
       'DESIGN.md section 4, C05')
 
 check('C07', 'call-graph exclusion (capacity-changing callees reachable only through grow) + control-dependence of every grow call on a capacity comparison + abstract interpretation of the growth function',
@@ -31,80 +31,80 @@ check('C07', 'call-graph exclusion (capacity-changing callees reachable only thr
 
 check('C08', 'rule instances over the instantiated program: throw-type/condition table, computation-type (integral promotion) check of every capacity request, growth-function interpretation',
       'Decides the error-type clauses and "no size computation wraps around" per size_type archetype; check-before-mutation and leak clauses come from the typestate rules listed in the evidence.',
-      'Partial: "contents exactly as before" is a value statement; its structural form (check dominates every mutation) is what is decided.',
+      'Also: CHECK-FIRST (path-sensitive: the limit test precedes the first modification), EXACT-WHO (no uintmax_t request reaches the exact path of SafeNextCapacity, which has no overflow test), strictness of the swap_sizetype range test. Partial: "contents exactly as before" is decided in its structural form.',
       'DESIGN.md section 4, C08')
 
 check('C18', 'abstract interpretation (affine lower bounds with clamp) of the growth function + loop/once-per-path rule for capacity adjustments',
       'The reallocation bound follows for every n from two static facts: growth factor a with a*a>=2 (derived: 3/2) and at most one grow with one allocator request per appended element; decided for every size_type archetype.',
-      'Trusted: constant folding of numeric_limits; arithmetic from the factor to 2*ceil(log2 n)+4 is in the evidence explanation.',
+      'Also: EXACT-WHO (no element-adding operation reaches an exact request), GROW-BASIS (SafeNextCapacity is given the current capacity, never the word holding the size), SHRINK-INLINE. Trusted: constant folding of numeric_limits; arithmetic from the factor to 2*ceil(log2 n)+4 is in the evidence explanation.',
       'DESIGN.md section 4, C18')
 
 check('C09', 'typestate analysis on the structured bodies of the instantiated program (slot holes, pending temporaries, uncommitted raw constructs, size commits) with may-throw points taken from the resolved call graph and evaluated exception specifications',
       'Decides the static form of both guarantees for every may-throw point of every vector operation and memory algorithm: an opened slot range is closed by a handler, a constructed-but-invisible object is destroyed, nothing observable changes before the last may-throw call of a strong operation, no noexcept function reaches a throw. Covers all throw indices k at once because it quantifies over program points, not runs.',
-      'Partial: values after a failed operation, std::sort/inplace_merge internals and throwing destructors are not decided. Known findings F9/F20 are listed in known_findings.txt.',
+      'Also: DEAD-TAIL (no may-throw call between destroying counted elements and the size commit), BLOCK (a fresh block held by a local is owned or given back on every exit, scope guards understood), RETHROW (no handler swallows), CLOSER (the roll-back helpers are symbolically the inverse of shift_right), CURSOR (roll-back cursors advance after the construct). Partial: values after a failed operation, std::sort/inplace_merge internals and throwing destructors are not decided. The defects these rules found in the pinned tree (F8-F10, F18, F20, F21) are repaired; known_findings.txt holds no open finding.',
       'DESIGN.md section 4, C09')
 
 check('C10', 'effect-ordering (typestate) analysis: no read of an element-reference argument after an element-moving effect, with the re-basing overloads checked by the same engine',
       'Decides, for every operation of C10 x flavour x element category, that the argument is only read before any element is moved/destroyed/reallocated or through the re-based reference; a necessary and (with C01) sufficient condition for "as if copied first".',
-      'Partial: the resulting sequence itself is C01. rvalue arguments are assumed not to alias (as std::vector).',
+      'Mutating members of this (clear, erase, ...) count as element-moving effects; pointer re-basing idioms are interpreted exactly. Partial: the resulting sequence itself is C01. rvalue arguments are assumed not to alias (as std::vector).',
       'DESIGN.md section 4, C10')
 
 check('C01', 'typestate / dataflow rules over the instantiated program (size-word write discipline, capacity-check dominance, single-pass iterator use, self-assignment distance) + record-layout facts',
       'Decides six structural clauses that are each necessary for C01 (inline encoding discipline, inline span, single traversal of input ranges, no element operation for an empty erase, capacity check before every construct incl. base bookkeeping, size commit follows lifetime op); the behavioural equality with std::vector over histories is NOT decided.',
-      'Partial: necessary conditions only. Known finding F6 (input iterators) listed in known_findings.txt.',
+      'Also decided: RET-POS (abstract interpretation - storage versions x linear offsets - of every position-returning member: the returned iterator is the index of the position argument in the current storage), VALUE-INIT (who-may-call: no default-initialisation in the vector classes), BYTECMP, ALIAS, result types (SIG witnesses). Partial: necessary conditions only; element sequences over histories are not decided.',
       'DESIGN.md section 4, C01')
 
 check('C02', 'who-may-call analysis of byte copies over the resolved call graph (incl. libstdc++ bodies) per element archetype + overload-pair effect signatures + typestate (normal paths)',
       'Second sentence of C02 decided in full for the matrix: no memcpy/memmove/realloc touches an E* for non-relocatable E anywhere in the call graph, reallocate only for relocatable E, overload pairs consistent. First sentence: necessary structural clauses (hole re-filled once, size commits matched, no self-assignment, temporaries released, destructor layer present).',
-      'Partial: exactly-once as a count over histories is not decided.',
+      'Also: SELF-MOVE (no element assigned from a possibly identical element designator of the same container), LIVE-COUNT (the "already constructed" count given to move_n / assign_n / fill is the size at the call). Partial: exactly-once as a count over histories is not decided.',
       'DESIGN.md section 4, C02')
 
 check('C06', 'argument-provenance and typestate rules on allocator call sites (who passes which word), release-on-all-heap-paths analysis, hand-over effect analysis',
       'Decides that every deallocate/reallocate call site passes the block with the capacity word that travels with it, that every path that abandons or overwrites a storage pointer released the block first, that hand-over transfers pointer+capacity jointly without element operations, and that reallocate is reached only for relocatable element types.',
-      'Partial: exactly-once as a count over histories and unequal stateful allocators are not decided.',
+      'Also: BLOCK (fresh blocks owned or given back on every exit), XALLOC (buffers exchanged only between equal allocator type and size_type), STALE-READ (the capacity travels with the block in swap2). Partial: exactly-once as a count over histories and unequal stateful allocators are not decided.',
       'DESIGN.md section 4, C06')
 
 check('C13', 'typestate rules over every swap2 instantiation (ordered flavour pairs): throw-before-mutation ordering, size-word write discipline, noexcept soundness on the call graph, capacity-check dominance',
       'Decides, for all ordered pairs of the flavour matrix, that a failing exchange throws before either operand is modified (and really throws rather than terminating), that sizes are exchanged through the encoding discipline, that the deep swap is capacity-checked and the buffer exchange touches no element.',
-      'Partial: exact exchange of the element sequences is a value statement and is not decided.',
+      'Also: EACH-OTHER, STALE-READ, XALLOC, ENC-SIB, strict swap_sizetype range test (THROW-TYPE). Partial: exact exchange of the element sequences is a value statement and is not decided.',
       'DESIGN.md section 4, C13')
 
 check('C03', 'who-may-construct rule on comparator-typed expressions, post-dominance of sort/merge/unique after bulk writes, control dependence of the node reset, comparator-call counting, type-level const-view witnesses',
       'Decides structural clauses necessary for C03: stored comparator used for every decision, every bulk writer re-establishes sorted+unique with a stable sort, insert(node) empties the node only on insertion, no mutable access to the sorted storage, every lookup is one binary search.',
-      'Partial: equality with std::set over histories, merge loops and the hint decision tree (C12) are not decided.',
+      'Also: CMP-INIT (constructors / swap carry the comparator), NODE-MOVE / NODE-POS (a refused node keeps its value and reports the blocking element), MERGE-ORDER. Partial: equality with std::set over histories is not decided; the hint decision tree is C12.',
       'DESIGN.md section 4, C03')
 
 check('C04', 'typestate analysis over SmallSet members with facts from isSmall()/isSmallContFull()/grow() per operand; membership-test dominance; comparator provenance',
       'Decides the state anchor of C04: exactly one of the two containers is written in each state on every path (incl. merge across template parameters), no add to the inline vector without a membership test, stored comparator everywhere, both backings analysed against the same rules.',
-      'Partial: observable equality with std::set over histories is not decided.',
+      'Also: SS-PAIR (replacing one container as a whole replaces or empties the other), LEX-SIB, SS-GROW, ITER-STATE, one-sided unguarded access (ALT-SIB). Partial: observable equality with std::set over histories is not decided.',
       'DESIGN.md section 4, C04')
 
 check('C11', 'typestate on the knowledge "large": results of removing calls are used only after re-testing the active container; sibling agreement of the alternative-selecting members; alternative access only in the matching state',
       'Decides that every iterator handed to the caller is built from the container active at the return (erase returns end() of the active container when the last element goes) and that begin/end/rbegin/rend/find agree on the alternative in both states.',
-      'Partial: "visits every element exactly once" is inherited from the underlying containers (trusted).',
+      'Also: ITER-STATE, NODE-POS, ARROW-STAR (operator-> is the address of operator*, forward and reverse). Partial: "visits every element exactly once" is inherited from the underlying containers (trusted).',
       'DESIGN.md section 4, C11')
 
 check('C19', 'comparator-call counting on the structured paths of the instantiated lookup members (max over paths, interprocedural through amc callees), loop / linear-algorithm exclusion',
       'Decides the stated bounds for every n: one binary search + <=2 direct comparisons per FlatSet lookup (2*ceil(log2(n+1))+4 with the standard\'s bound), <=4 comparisons on the search-free paths of insert_hint, <=2N+2 for the inline state of SmallSet.',
-      'Partial: that each correct hint takes a search-free path is value-dependent and not decided. Trusted: ISO complexity clauses of lower_bound/upper_bound.',
+      'That each correct hint takes a search-free, loop-free path is decided by the ordering interpretation of C12 (HINT-FREE), incl. the node overload handing its hint on. Trusted: ISO complexity clauses of lower_bound/upper_bound.',
       'DESIGN.md section 4, C19')
 
 check('C14', 'provenance analysis of every value stored into a pointer field / heap-pointer slot of the container classes (never derived from this) + record-layout facts + compile-time trait matrix',
       'Decides the static argument for relocatability: no field of a container that claims the trait can hold an address of the object itself (so a byte copy is a faithful copy), the inline elements are inside the object, and each container claims the trait exactly when all its parts do (matrix incl. std::set backing => false).',
-      'Partial: the behaviour of the relocated object over further histories is the same object state and falls under C01/C03.',
+      'The trait matrix covers pair elements (each member position), non relocatable comparators / vectors inside FlatSet and FlatSet-backed SmallSet. Partial: the behaviour of the relocated object over further histories is the same object state and falls under C01/C03.',
       'DESIGN.md section 4, C14')
 
 check('C15', 'per-language-standard analysis of the instantiated memory algorithms: all-paths-return (path engine), typestate clean-up rule on the construct loops, construct-before-destroy ordering, byte-copy who-may-call, compile-time signature witnesses, cross-standard effect-signature comparison',
       'Decides for c++11/14/17/20 (different implementations selected) that every algorithm returns on all paths with the standard result type, destroys its partial output on throw, relocates as construct-then-destroy with the sources alive until all constructs succeeded, and byte-copies only when the trait allows.',
-      'Partial: value equality of the constructed objects is not decided.',
+      'Also: ADVANCE, EMUL-EFFECT (incl. value- vs default-initialisation from the initialisation style of the new-expressions), CURSOR, SAMETYPE (byte copies only between equal value types; cross-type copies instantiated). Partial: value equality of the constructed objects is not decided.',
       'DESIGN.md section 4, C15')
 
 check('C16', 'cross-configuration comparison of the instantiated program (structural hashes of every function body, API tables, effect signatures) over the lattice {c++11..20} x {extras on/off} x {NDEBUG on/off} + assert-purity + detection-idiom and constant witnesses',
       'Decides the static slice of C16: AMC_NONSTD_FEATURES and NDEBUG leave every function body unchanged (assert expansions aside, which are side-effect free), pedantic mode only hides the documented extras, SmallSet is absent before C++17, member sets agree across standards except the documented ones, #if alternatives have equal effect signatures and equal compile-time constants, no function falls off its end.',
-      'Partial: transcript equality of whole programs and undiagnosed undefined behaviour are not decided.',
+      'ASSERT-PURE follows the callees of assert arguments (a single-pass range consumed by std::distance), effect signatures ignore branches the instantiated program cannot take and are compared per instantiation, the swappable-trait emulation is checked against unqualified-lookup + ADL witnesses. Partial: transcript equality of whole programs and undiagnosed undefined behaviour are not decided.',
       'DESIGN.md section 4, C16')
 
-check('C12', 'abstract interpretation of the insert_hint decision tree over the finite domain of orderings (value vs. up to three neighbours on each side of the hint, boundary flags), std::lower_bound given its specified result',
+check('C12', 'abstract interpretation of every hinted entry point of FlatSet (recognised by shape: insert(hint, v), emplace_hint, the hinted helper) over the finite domain of orderings (value vs. up to three neighbours on each side of the hint, boundary flags), std::lower_bound given its specified result; in-place insertion + neighbour tests + erase modelled; delegation is an action of its own',
       'Decides C12 for the ordering abstraction, exhaustively: for each of the 112 consistent orderings the action taken by insert_hint (return an iterator / insert at a position / search + epilogue / un-hinted insert) is the right one, and no invalid position is dereferenced; insert(hint,v), emplace_hint and insert(hint,node) all forward to it. The behaviour of insert_hint depends on the set, the hint and the value only through this abstraction, because it touches them only through comparator calls and iterator equality.',
       'Assumes a strict weak ordering, a sorted duplicate-free set on entry (C03), and std::lower_bound / vector::insert as specified. A decision tree using constructs the interpreter does not model ends ANALYSIS-BROKEN.',
       'DESIGN.md sections 6 and 10.5, C12')
